@@ -146,6 +146,7 @@ def run(idx: ProgramIndex, rep: Report, tier: str):
     enumeration_obligations(idx, rep, "C02-5", [idx.find_class("ExactMarginalLogLikelihood").lookup("_add_other_terms")], floor=9)
     grad_state(idx, rep)
     enumerators_once(idx, rep)
+    likelihood_arguments_forwarded(idx, rep)
 
 
 def _other_terms(idx: ProgramIndex, cls: ClassInfo) -> Tuple[FuncInfo, List[str], Affine]:
@@ -527,3 +528,40 @@ def enumerators_once(idx: ProgramIndex, rep: Report):
                 "memo threaded through the recursion and consulted" if not probs else
                 "; ".join(probs) + ": an entry of a module that two parents share is enumerated once per path (a shared kernel's prior is added twice to the objective)", {})
     rep.floor("C02-7", "recursive registry enumerators", n, 4)
+
+
+# ---- C02-8 ---------------------------------------------------------------------------------------------------------
+def likelihood_arguments_forwarded(idx: ProgramIndex, rep: Report):
+    """The objectives evaluate the likelihood's marginal with whatever the caller adds: extra positional parameters (train inputs for
+    input-dependent noise) and keywords (noise= of a fixed-noise likelihood).  An objective of the exact family that overrides forward
+    accepts what the base objective accepts and hands both on to the likelihood - otherwise the same call that works for the exact MLL
+    raises TypeError (or silently uses another noise) for its sibling."""
+    rep.rule("C02-8", "every exact objective evaluates the likelihood with the caller's extra parameters and keywords: forward accepts *params and **kwargs and hands both to self.likelihood(...)")
+    E = idx.find_class("ExactMarginalLogLikelihood")
+    n = 0
+    for cls in sorted(idx.subclasses(E), key=lambda c: c.qualname):
+        fi = cls.methods.get("forward")
+        if fi is None:
+            continue
+        n += 1
+        a = fi.node.args
+        sn = fi.params[0]
+        probs = []
+        if a.vararg is None:
+            probs.append("forward takes no *params")
+        if a.kwarg is None:
+            probs.append("forward takes no **kwargs (the exact MLL forwards them: objective(output, y, noise=...) raises TypeError here)")
+        calls = [c for c in calls_in(fi.node) if chain(c.func) == "%s.likelihood" % sn]
+        if not calls:
+            sup = [c for c in calls_in(fi.node) if isinstance(c.func, ast.Attribute) and c.func.attr == "forward" and isinstance(c.func.value, ast.Call) and chain(c.func.value.func) == "super"]
+            if not sup:
+                probs.append("forward neither evaluates self.likelihood(...) nor delegates to super().forward")
+            calls = sup
+        for c in calls:
+            if a.vararg is not None and not any(isinstance(x, ast.Starred) and isinstance(x.value, ast.Name) and x.value.id == a.vararg.arg for x in c.args):
+                probs.append("`%s` drops *%s" % (src(c)[:50], a.vararg.arg))
+            if a.kwarg is not None and not any(k.arg is None and isinstance(k.value, ast.Name) and k.value.id == a.kwarg.arg for k in c.keywords):
+                probs.append("`%s` drops **%s" % (src(c)[:50], a.kwarg.arg))
+        rep.add("C02-8", "%s:%s.forward[likelihood arguments]" % (cls.module.name, cls.qualname), fi.where, not probs,
+                "*params and **kwargs reach the likelihood" if not probs else "; ".join(probs), {})
+    rep.floor("C02-8", "forward methods of the exact objective family", n, 2)
